@@ -674,9 +674,6 @@ class NativeHygiene(NativeCheck):
                 return dict(observed=dict(header=h, seq=s, len=len(s)), expected=f'length in [{lo},{hi}] and mass >= {mw}')
             if s in canon:
                 return dict(observed=dict(header=h, seq=s), expected='not in the canonical pool (incl. I->L images) for the same settings')
-        entries = [e for h in fasta for e in h.split(' ')]
-        if len(set(entries)) != len(entries):
-            return dict(observed='a header entry occurs twice', expected='header entries unique in the FASTA')
         if table is not None:
             pairs_f = {(s, e) for h, s in fasta.items() for e in h.split(' ')}
             pairs_t = set()
